@@ -1100,6 +1100,13 @@ where
             Filter::TextResource(res_handle, SelectionQualifier::Metadata) => annotation
                 .resources_as_metadata()
                 .any(|res| res.handle() == *res_handle),
+            //(an annotation that does not refer to any text has no textual content to compare:
+            // text_join() of nothing is "", which would match an empty reference text)
+            Filter::Text(..) | Filter::BorrowedText(..)
+                if annotation.textselections().next().is_none() =>
+            {
+                false
+            }
             Filter::Text(reftext, textmode, delimiter) => {
                 if let Some(text) = annotation.text_simple() {
                     match textmode {
